@@ -312,7 +312,7 @@ def run(ctx, out):
                f'{len(bad)} mismatches over {len(items)}, {len(errs)} shard errors')
     for e in errs[:1]:
         out.violation('C17:corr_process:shard-error', 'shard failed: ' + e[:400], {'correspondence': 'corr_process', 'error': e[:1500]}, no_input=True)
-    if bad and not any(not v['no_input'] for v in out.violations):
+    if bad and not out.has_unlisted_input():
         chain = items[bad[0]][0]
         out.violation('C17:corr_process', f'model and pane disagree on the fields of {" <- ".join(c.__name__ for c, _, _ in chain)}: pane has '
                       f'{[(f.name, f.kw_only) for f in chain[-1][0].__pane_info__.fields]}', {'correspondence': 'corr_process', 'levels': [[list(i) for i in its] for _, its, _ in chain]}, no_input=True)
